@@ -160,6 +160,30 @@ class BodyFlow:
             per = {}
             for tg, p in flow.switch_edge_predicates(self.b, bb, self.ov):
                 g = set()
+                # a guard kept in a named bool (`let in_bounds = id < n; if in_bounds {..}`): substitute the comparison that defines it — sound when the bool
+                # has exactly one definition and no operand of the comparison is a variable assigned between that definition and this switch
+                mb = re.match(r'^(!?)bool\[var:(\w+)\]$', p)
+                if mb:
+                    ls = self.b.var_local(mb.group(2))
+                    if len(ls) == 1:
+                        ds = [d for d in self.b.defs.get(ls[0], []) if d[2] in ('assign', 'call', 'passign', 'pcall', 'yield')]
+                        if len(ds) == 1 and ds[0][2] == 'assign' and ds[0][3]['rv'].get('k') == 'bin' and ds[0][3]['rv'].get('op') in ('Lt', 'Le', 'Gt', 'Ge'):
+                            cmp_o = self.ov.of_rvalue(ds[0][3]['rv'], 0, FORCE)
+                            cr = flow.render(cmp_o)
+                            ops = re.findall(r'var:(\w+)', cr)
+                            stable = True
+                            db, di = ds[0][0], ds[0][1]
+                            # blocks on a path from the definition to this switch that does not pass the definition again
+                            region = set() if db == bb else (self.b.reach(self.b.succ(db), avoid_blocks=[db]) & {x for x in range(len(self.b.blocks)) if bb in (self.b.reach([x], avoid_blocks=[db]) | {x})})
+                            for nm_ in set(ops):
+                                for l2 in self.b.var_local(nm_):
+                                    for d2 in self.b.defs.get(l2, []):
+                                        if d2[0] in region or (d2[0] == db and d2[1] > di):
+                                            stable = False
+                            if stable:
+                                atom, neg = flow.atom_of(cmp_o, self.b, False)
+                                if atom.startswith('cmp['):
+                                    p = ('!' if (bool(mb.group(1)) != neg) else '') + atom
                 r = self._lt_n(p)
                 if r == ('NONEMPTY',):
                     g.add('NONEMPTY')
